@@ -54,4 +54,26 @@ theorem checkFarkas_sound (rows : List Row) (coeffs : List Int) (h : checkFarkas
 
 example : checkFarkas [[1, 1, -1], [-1, 0, 0], [0, -2, 1]] [2, 2, 1] = true := by decide
 
+/-- A derivation that passes `checkDeriv` (assumptions are given rows; `combine_real_factoid`
+combinations with the translated multipliers; division by the gcd of the variable coefficients with
+the constant rounded down; sum of two rows) and ends in `0 ≤ c` with `c < 0` proves that the system
+has no integer solution.  The harness sends every `Contr` derivation of `solve_matrix` through it. -/
+theorem checkDeriv_sound (rows : List Row) (d : Deriv) (h : checkDeriv rows d = true) :
+    ¬ ∃ v : Nat → Int, Sat rows v := by
+  rintro ⟨v, hv⟩
+  simp only [checkDeriv] at h
+  split at h
+  · rename_i f hf
+    have h1 := evalDeriv_sound rows v hv d f hf
+    have h2 := isFalseRow_evalG_neg f 0 v h
+    rw [evalRow, evalAt_eq_evalG] at h1
+    omega
+  · simp at h
+
+-- 2x - 1 ≥ 0 and -2x + 1 ≥ 0 (x = 1/2): contradiction only after gcd tightening
+example : checkDeriv [[2, -1], [-2, 1]] (.directContr (.gcdCheck (.asm [-2, 1])) (.gcdCheck (.asm [2, -1]))) = true := by
+  decide
+example : checkDeriv [[1, 1, -3], [-1, 1, 0], [0, -1, 1]]
+    (.realCombine 1 (.realCombine 0 (.asm [1, 1, -3]) (.asm [-1, 1, 0])) (.asm [0, -1, 1])) = true := by decide
+
 end Holpy.C16
